@@ -904,13 +904,7 @@ pub fn emit(prop: &str, g: &mut Gen, out: &mut Vec<String>) {
             // interleave options and positionals in random order
             let mut items: Vec<Vec<String>> = opts;
             for p in pos {
-                let neg = p.starts_with('-') && p.len() > 1 && !p[1..2].chars().all(|c| c.is_ascii_digit());
-                if neg && g.rng.chance(3, 4) {
-                    // a date with a negative year needs `--` unless it starts with a digit
-                    items.push(vec![p]);
-                } else {
-                    items.push(vec![p]);
-                }
+                items.push(vec![p]);
             }
             // Fisher–Yates
             for i in (1..items.len()).rev() {
